@@ -483,3 +483,9 @@ def _has_cycle(g):
         color[u] = 2
         return False
     return any(dfs(u) for u in list(g) if u not in color)
+
+
+def thorough(ctx):
+    """re-derive the facts about the pinned ciborium that this property leans on (DESIGN section 9)"""
+    from rules import audit
+    audit.audit(ctx, "R-audit", ['recursion'])
